@@ -712,8 +712,9 @@ mod verif_xc_ack_waiter {
   // Oracle (from the statement): the answer is Ok(true) only if a success token was really sent
   // for THIS wait before the answer (or the DataWriter is not Reliable: nothing to wait for);
   // if the token is sent in time the answer is Ok(true) without waiting for the timeout; otherwise
-  // the synchronous form answers Ok(false) not later than max_wait + slack (and, when the command
-  // is simply held, not before max_wait), the asynchronous form stays pending and completes with
+  // the synchronous form answers Ok(false) after the requested time: never earlier than
+  // max_wait - 5 ms (whatever the fate of the command) and not later than max_wait + slack, the
+  // asynchronous form stays pending and completes with
   // Ok(true) as soon as the token is there.
   // Bound: reliability in {Reliable, BestEffort, none} x fate of the command in {queue full with
   // k = 1, 2 samples, received and sender dropped without token, token at once, token after 20 ms,
@@ -958,6 +959,11 @@ mod verif_xc_ack_waiter {
               match rep.token_at { None => "never".to_string(), Some(t) => format!("{} ms after the answer", (t - returned).as_millis()) });
           }
           assert!(took <= max_wait + SLACK, "XC-WITNESS label=wfa.sync.timeout {}: answered Ok({}) only after {} ms", ctx, answer, took.as_millis());
+          if !answer {
+            // "Otherwise the synchronous form reports a timeout AFTER the requested time" — whatever
+            // happened to the command (could not be queued, dropped by the writer side, held, late token)
+            assert!(took + StdDuration::from_millis(5) >= max_wait, "XC-WITNESS label=wfa.sync.timeout_after_requested_time {}: answered Ok(false) (timeout) already after {} us, the requested time of {} ms had not elapsed (command received by the writer side: {}, token sent before the answer: {})", ctx, took.as_micros(), max_wait.as_millis(), rep.command_seen, token_before_answer);
+          }
           match fate {
             Fate::QueueFull(k) => {
               // the samples are still queued and the command never got in
@@ -984,7 +990,6 @@ mod verif_xc_ack_waiter {
             }
             Fate::TokenAfterTimeout | Fate::Held => {
               assert!(rep.command_seen, "XC-WITNESS label=wfa.sync.command {}: the WaitForAcknowledgments command never reached the writer side", ctx);
-              assert!(took + StdDuration::from_millis(5) >= max_wait, "XC-WITNESS label=wfa.sync.timeout {}: answered Ok({}) already after {} ms, before the requested time, while the wait was still pending", ctx, answer, took.as_millis());
             }
           }
           n += 1;
